@@ -113,4 +113,13 @@ Proof.
   - simpl in Hi, Hlast. replace (j + S i)%nat with (S j + i)%nat by lia.
     apply (IH (S j) k m s1 s' G1); auto. lia.
 Qed.
+
+(* what the argument loop puts into temp_values is typed for its parameter *)
+Lemma conv_arg_typed p s v o : conv_arg p s v = Ok o -> typed_for p o.
+Proof.
+  unfold conv_arg, typed_for. destruct (is_strname p).
+  - destruct (is_strobj v); [|discriminate]. intros H; inversion H; eauto.
+  - destruct v; try discriminate. unfold conv_num. destruct ((nty p =? 2) && ((z <? -32768) || (32767 <? z))) eqn:E; simpl; [discriminate|].
+    intros H; inversion H; subst. exists (nty p), z. split; [reflexivity|]. rewrite E. reflexivity.
+Qed.
 End Binding.
